@@ -21,7 +21,7 @@ THEOREMS = [
     "PV.C13.linear_eq_random",
     "PV.C13.locateOnly_pure",
     "PV.C13.linear_requires_order",
-    "PV.C13.classdef_keyword_before_starred_base_fails",
+    "PV.C13.classdef_keyword_before_starred_base_forward",
     "PV.C13.linear_any_order_fails",
     "PV.C13.validUtf8_lineStartsOk",
     "PV.C13.codePoints_utf8Encode",
@@ -44,7 +44,7 @@ PARTIAL = [
     "the property quantifies over all trees; the theorems quantify over call histories of the locator. That the "
     "fold of a tree (generated fold + hand-written overrides + look-ahead locator) produces a forward history is a "
     "hypothesis of linear_eq_spec (Forward), not proved: it is evaluated on the recorded real history of every test "
-    "program (fwd= in the trace answers) and is false for the listed class-keyword shape",
+    "program (fwd= in the trace answers); it was false for class keywords before starred bases until /repo 505c970",
     "which location the fold stores in which node is not modelled (finding linear-fstring-concat-piece-range is only "
     "seen by the oracle on node positions)",
     "offsets between a CR and its LF are outside linear_eq_spec (InDomain); random_eq_spec covers them",
@@ -72,14 +72,9 @@ RULE = ("request lines sent to the real crates (and, for trace/locseq/spec reque
 
 BOM = "\ufeff"
 
-# A second build flavour of the same harness binary: no debug assertions, no overflow checks (what a
-# release build of the crates does: the LinearLocator has no self-check and `u32` subtraction wraps).
-# Registered here because tools/core.py only knows cargo *feature* sets; it is only built in the
-# thorough tier.
-core.FEATURE_SETS.setdefault("nodebug", [
-    "--config", "profile.dev.debug-assertions=false", "--config", "profile.dev.overflow-checks=false",
-    "--config", 'profile.dev.package."*".debug-assertions=false',
-    "--config", 'profile.dev.package."*".overflow-checks=false'])
+# A second build flavour of the same harness binary (feature set `nodebug` of tools/core.py): no debug
+# assertions, no overflow checks (what a release build of the crates does: the LinearLocator has no
+# self-check and `u32` subtraction wraps). Only built in the thorough tier.
 HARNESS_R = {"bin": "pvh_c13", "features": "nodebug"}
 EXTRA_HARNESS = [HARNESS_R]
 
@@ -283,32 +278,8 @@ def _describe(nf, ops):
 
 # ------------------------------------------------------------------ known findings
 
-K_CLASS = "linear-classdef-keyword-before-starred-base"
 K_FCONCAT = "linear-fstring-concat-piece-range"
 K_CRLF = "linear-offset-inside-crlf"
-
-
-def _byte_offset(lines_b, lineno, col):
-    return sum(len(l) for l in lines_b[:lineno - 1]) + col
-
-
-def _class_kw_before_star(src_b):
-    """byte ranges (start, end) of class keywords that precede a starred base (CPython's ast as the reader)"""
-    try:
-        tree = ast.parse(src_b)
-    except Exception:
-        return []
-    lines_b = src_b.splitlines(keepends=True)
-    out = []
-    for n in ast.walk(tree):
-        if isinstance(n, ast.ClassDef):
-            stars = [b for b in n.bases if isinstance(b, ast.Starred)]
-            for kw in n.keywords:
-                kpos = (kw.lineno, kw.col_offset)
-                if any((s.lineno, s.col_offset) > kpos for s in stars):
-                    out.append((_byte_offset(lines_b, kw.lineno, kw.col_offset),
-                                _byte_offset(lines_b, kw.end_lineno, kw.end_col_offset)))
-    return out
 
 
 def _source_of(req):
@@ -328,17 +299,8 @@ def _history_finding(src, ops, wrong):
         return None
     i, why, off, cursor = nf
     ref = Ref(src)
-    shift = 3 if ref.bom else 0
-    body = src[shift:]
     if why == "behind":
-        if ops[i][0] != "l":
-            return None
-        kws = [(a + shift, b + shift) for a, b in _class_kw_before_star(body)]
-        if not any(a == off for a, b in kws):
-            return None
-        if all(any(a <= s and e <= b for a, b in kws) for s, e in wrong):
-            return K_CLASS
-        return None
+        return None         # no listed finding makes the fold go backwards
     if ref.inside_crlf(off) and ref.boundary(off) and off >= cursor:
         # a release build is off by one line from here on
         if all(e >= off for s, e in wrong):
@@ -405,8 +367,8 @@ NUMS = ["0", "1", "42", "3.5", "1e3", "0x1F", "2j"]
 
 class Gen:
     """Compact generator of Python programs biased towards constructs whose tree order differs from
-    source order.  Known-finding shapes are never produced here (class keyword before a starred
-    base; implicit concatenation with an f-string that has fields; CR inside an f-string)."""
+    source order.  Known-finding shapes are never produced here (implicit concatenation with an
+    f-string that has fields; CR inside an f-string)."""
 
     def __init__(self, rng):
         self.r = rng
@@ -705,14 +667,24 @@ class Gen:
             return (f"{self.decorators(d, ind)}{ind}{kw} {r.choice(['f', 'g', 'é'])}{tp}({self.params(d)}){ret}:\n"
                     f"{blk(in_def=True, in_loop=False, in_async=is_async)}")
         if k in (22, 23, 24):
-            # bases, starred bases, then keywords: a keyword never precedes a starred base here
+            # bases, starred bases and keywords in any legal order (a keyword may precede a starred base)
             bases = [self.postfix(1) for _ in range(r.randrange(0, 3))]
+            kws = []
+            if r.randrange(2):
+                kws.append(f"metaclass={self.postfix(1)}")
+            if r.randrange(3) == 0:
+                kws.append(f"k={e()}")
+            for kw in kws:
+                bases.insert(r.randrange(len(bases) + 1) if r.randrange(2) else len(bases), kw)
+            # positional bases must not follow a keyword: turn those into starred ones
+            seen_kw = False
+            for i, b in enumerate(bases):
+                if "=" in b.split("(")[0].split("[")[0]:
+                    seen_kw = True
+                elif seen_kw and not b.startswith("*"):
+                    bases[i] = "*" + self.name()
             if r.randrange(2):
                 bases.insert(r.randrange(len(bases) + 1), "*" + self.name())
-            if r.randrange(2):
-                bases.append(f"metaclass={self.postfix(1)}")
-            if r.randrange(3) == 0:
-                bases.append(f"k={e()}")
             if r.randrange(4) == 0:
                 bases.append(f"**{self.name()}")
             paren = f"({', '.join(bases)})" if bases or r.randrange(2) else ""
@@ -762,6 +734,11 @@ CORPUS = [
     "f(k=g(z=1, *w), *b)\n",
     "f(a=1,\n  *b)\n",
     "class A(*b, x=1): pass\n",
+    # repaired in /repo 505c970 (class keywords are located by look-ahead): a regression is a VIOLATION
+    "class A(x=1, *b): pass\n",
+    "class A(\n  metaclass=M,\n  *bases): pass\n",
+    "class A(\n  metaclass=M, k=f(1,\n2),\n  *bases,\n y=3): pass\n",
+    "@d\nclass A[T](x=f'{a}', *b, y={**c}, *d, **e):\n    class B(k=1, *z): pass\n",
     "class A(B, *b, metaclass=M, **kw):\n    x = 1\n",
     "{**a, 'k': v}\n",
     "{'a': 1, **b, 'c': {**d}}\n",
@@ -804,8 +781,6 @@ CORPUS = [
 
 # deterministic probes of the listed known findings (never produced by the generators)
 KNOWN_PROBES = [
-    "class A(x=1, *b): pass\n",
-    "class A(\n  metaclass=M,\n  *bases): pass\n",
     "f'{x}' f'{y}'\n",
     "x = 'zz' f'a{é}b'\n",
     "f'''\r\n\r\n{x}'''\r\n",
@@ -1028,7 +1003,7 @@ def streams(ctx):
                 note="first 1500 generated programs against the release-semantics build")
     located("programs-random", progs, "random", modes=modes,
             note="compact generator: calls with keyword/starred/double-starred arguments in every legal order, class "
-                 "keywords after starred bases, dict unpacking, conditional expressions, decorators, f-strings with "
+                 "keywords before and after starred bases, dict unpacking, conditional expressions, decorators, f-strings with "
                  "nested fields, lambda/def defaults, comprehensions, match statements; non-ASCII identifiers and "
                  "strings; LF/CRLF/CR/mixed endings; optional BOM")
 
